@@ -360,57 +360,74 @@ def check_aggregation(ctx, cls):
     ctx.ob('R16.3-aggregation', 'by-name', not positional, where,
            "a parameter's prior specification is taken from the prior dictionary under the parameter's own name (never paired by position)",
            '; '.join(positional[:2]))
-    loops = [s for s in f.body if isinstance(s, ast.For)]
+    # the loops over the parameters: the one that accumulates the sum, and possibly screening loops in front of it
+    ploops = [s for s in f.body if isinstance(s, ast.For) and src(s.iter) == '%s.items()' % f.args.args[1].arg
+              and isinstance(s.target, ast.Tuple) and len(s.target.elts) == 2]
+    main = [l_ for l_ in ploops if any(isinstance(n_, ast.AugAssign) and isinstance(n_.op, ast.Add) for n_ in ast.walk(l_))]
     problems = []
-    if len(loops) != 1 or src(loops[0].iter) != '%s.items()' % f.args.args[1].arg:
+    if len(main) != 1 or [s for s in f.body if isinstance(s, ast.For) and s not in ploops]:
         raise AnalysisError('check_prior: loop over the parameters not found')
-    lp = loops[0]
+    lp = main[0]
+    screens = [l_ for l_ in ploops if l_ is not lp]
+    if any(f.body.index(l_) > f.body.index(lp) for l_ in screens):
+        raise AnalysisError('check_prior: a loop over the parameters follows the summation')
     kv, vv = [src(e) for e in lp.target.elts]
-    # aliases defined once inside the loop body (`prior_spec = self.prior[key]`, `prior_type = prior_spec[0]`) are read through
-    body_fn = ast.FunctionDef(name='_body', args=ast.arguments(posonlyargs=[], args=[], kwonlyargs=[], kw_defaults=[], defaults=[]),
-                              body=lp.body, decorator_list=[], type_params=[])
-    defs = {n_: v_ for n_, v_ in util.single_defs(body_fn).items() if v_ is not None}
     k_ = lambda t: t.replace(' ', '')
     spec = 'self.prior[%s]' % kv
-    # the rejection: the `return np.inf` statements of the loop body, each with the conditions under which it runs (nested ifs and
+
+    def body_defs(loop):
+        bf = ast.FunctionDef(name='_body', args=ast.arguments(posonlyargs=[], args=[], kwonlyargs=[], kw_defaults=[], defaults=[]),
+                             body=loop.body, decorator_list=[], type_params=[])
+        return bf, {n_: v_ for n_, v_ in util.single_defs(bf).items() if v_ is not None}
+    # aliases defined once inside the loop body (`prior_spec = self.prior[key]`, `prior_type = prior_spec[0]`) are read through
+    body_fn, defs = body_defs(lp)
+    # the rejections: the `return np.inf` statements of the loops, each with the conditions under which it runs (nested ifs and
     # conjunctions are the same thing here)
-    rets = [n_ for b_ in lp.body for n_ in ast.walk(b_) if isinstance(n_, ast.Return) and n_.value is not None and k_(src(n_.value)) in ('np.inf', 'numpy.inf')]
-    rej = []
-    for r_ in rets:
-        top = r_
-        while getattr(top, '_parent', None) is not lp and getattr(top, '_parent', None) is not None:
-            top = top._parent
-        if isinstance(top, ast.If) and top in lp.body:
-            rej.append(top)
+    flagged, extra = [], []
+    for loop in ploops:
+        _, ldefs = body_defs(loop)
+        lk, lv = [src(e) for e in loop.target.elts]
+        for r_ in [n_ for b_ in loop.body for n_ in ast.walk(b_) if isinstance(n_, ast.Return) and n_.value is not None
+                   and k_(src(n_.value)) in ('np.inf', 'numpy.inf')]:
+            tests = []
+            cur = r_
+            top = r_
+            while getattr(cur, '_parent', None) is not None and cur is not loop:
+                par = cur._parent
+                if isinstance(par, ast.If):
+                    tests.append(par.test if cur in par.body else ast.UnaryOp(op=ast.Not(), operand=par.test))
+                if par is not loop:
+                    top = par
+                cur = par
+            flat = []
+            for t in tests:
+                t = util.inline(t, ldefs)
+                flat += list(t.values) if isinstance(t, ast.BoolOp) and isinstance(t.op, ast.And) else [t]
+            conj = sorted(k_(util.canon_test(v)) for v in flat)
+            (flagged if any('positive' in c_ for c_ in conj) else extra).append((loop, r_, top, conj, lk, lv))
     ok_pos = False
     pos_detail = ''
-    if len(rej) == 1 and len(rets) == 1:
-        tests = []
-        cur = rets[0]
-        while getattr(cur, '_parent', None) is not None and cur is not lp:
-            par = cur._parent
-            if isinstance(par, ast.If):
-                tests.append(par.test if cur in par.body else ast.UnaryOp(op=ast.Not(), operand=par.test))
-            cur = par
-        flat = []
-        for t in tests:
-            t = util.inline(t, defs)
-            flat += list(t.values) if isinstance(t, ast.BoolOp) and isinstance(t.op, ast.And) else [t]
-        conj = sorted(k_(util.canon_test(v)) for v in flat)
-        ok_pos = conj in (sorted(["'positive'in%s" % spec, '%s<0' % vv]), sorted(["'positive'in%s[1:]" % spec, '%s<0' % vv]))
-        if not ok_pos and len(conj) == 2 and '%s<0' % vv in conj:
+    if len(flagged) == 1:
+        loop, r_, top, conj, lk, lv = flagged[0]
+        lspec = 'self.prior[%s]' % lk
+        ok_pos = conj in (sorted(["'positive'in%s" % lspec, '%s<0' % lv]), sorted(["'positive'in%s[1:]" % lspec, '%s<0' % lv]))
+        if not ok_pos and len(conj) == 2 and '%s<0' % lv in conj:
             # the flag looked up in a set of names computed once from the prior specifications
-            other = [c_ for c_ in conj if c_ != '%s<0' % vv][0]
-            if other.startswith('%sinself.' % kv) and other[len('%sinself.' % kv):].isidentifier():
-                ok_pos = positive_set_attr(cls, other[len('%sinself.' % kv):])
+            other = [c_ for c_ in conj if c_ != '%s<0' % lv][0]
+            if other.startswith('%sinself.' % lk) and other[len('%sinself.' % lk):].isidentifier():
+                ok_pos = positive_set_attr(cls, other[len('%sinself.' % lk):])
         pos_detail = '' if ok_pos else 'rejection test is %s' % ' and '.join(conj)
         # nothing between the loop head and the rejection may return or add to the sum
-        before = lp.body[:lp.body.index(rej[0])]
-        if any(isinstance(x, (ast.Return, ast.AugAssign)) for b in before for x in ast.walk(b)):
+        if top in loop.body:
+            before = loop.body[:loop.body.index(top)]
+            if any(isinstance(x, (ast.Return, ast.AugAssign)) for b in before for x in ast.walk(b)):
+                ok_pos = False
+                pos_detail = 'the family is consulted before the positive flag'
+        else:
             ok_pos = False
-            pos_detail = 'the family is consulted before the positive flag'
+            pos_detail = 'the rejection is not a statement of the loop over the parameters'
     else:
-        pos_detail = '%d rejection tests found' % len(rej)
+        pos_detail = '%d rejection tests on the positive flag found' % len(flagged)
     ctx.ob('R16.3-aggregation', 'positive-flag', ok_pos, where,
            "a negative value under the 'positive' flag of *this* parameter is rejected before the family is consulted", pos_detail)
     # "the log-prior of a parameter vector is the sum over parameters": what check_prior returns on the normal exit is the running sum
@@ -443,7 +460,19 @@ def check_aggregation(ctx, cls):
                         assigned.add(x.id)
     accs = {src(n_.target) for n_ in ast.walk(body_fn) if isinstance(n_, ast.AugAssign) and isinstance(n_.op, ast.Add) and isinstance(n_.target, ast.Name)}
     reads, _ = paths.definite_assignment(lp.body, {kv, vv}, assigned - accs)
+    for loop in screens:
+        la = set()
+        for n_ in ast.walk(loop):
+            if isinstance(n_, (ast.Assign, ast.AugAssign, ast.AnnAssign)):
+                for t_ in (n_.targets if isinstance(n_, ast.Assign) else [n_.target]):
+                    for x in ast.walk(t_):
+                        if isinstance(x, ast.Name) and isinstance(x.ctx, ast.Store):
+                            la.add(x.id)
+        r2, _ = paths.definite_assignment(loop.body, {src(e) for e in loop.target.elts}, la)
+        reads = list(reads) + list(r2)
     carried = sorted({n_ for n_, _ in reads})
+    if extra and not carried:
+        raise AnalysisError('check_prior rejects values under further conditions (%s): not analysed' % ' and '.join(extra[0][3]))
     ctx.ob('R16.3-aggregation', 'per-parameter', not carried, where,
            'what is decided for one parameter depends on that parameter only: no variable other than the running sum is carried from one '
            'loop iteration into the next', '' if not carried else 'carried across iterations: %s (first read at %s)' % (
